@@ -46,7 +46,7 @@
 
     #[test]
     fn verif_oracle_rewrite_equals_specification() {
-        let tables: [&[(&str, &str)]; 3] = [&[], &[("a", "x"), ("ab", "y"), ("c", "")], &[("あい", "z"), ("ｶ", "カ"), ("b", "bb")]];
+        let tables: [&[(&str, &str)]; 4] = [&[], &[("a", "x"), ("ab", "y"), ("c", "")], &[("あい", "z"), ("ｶ", "カ"), ("b", "bb")], &[("aあ", "か"), ("a", "q"), ("bあい", "w")]];
         let ignores: [&[char]; 2] = [&[], &['Ａ', 'ｶ']];
         let alphabet = ["a", "b", "c", "A", "Ａ", "ǅ", "あ", "い", "ｶ"];
         let mut texts: Vec<String> = vec![String::new()];
